@@ -270,7 +270,11 @@ impl<'a> ExprAST<'a> {
                     "false".into()
                 }
             }
-            String(value) => "\"".to_string() + &value + "\"",
+            String(value) => {
+                // the payload cannot contain its own delimiter, so one of the two quotes fits
+                let quote = if value.contains('"') { "'" } else { "\"" };
+                quote.to_string() + &value + quote
+            }
         }
     }
 
@@ -291,36 +295,58 @@ impl<'a> ExprAST<'a> {
         ans
     }
 
+    fn paren_expr(&self) -> String {
+        "(".to_string() + &self.expr() + ")"
+    }
+
+    // an operand the parser reads as one primary: an atom or a prefix expression
+    fn is_atom(&self) -> bool {
+        match self {
+            ExprAST::Binary(..) | ExprAST::Ternary(..) | ExprAST::Postfix(..) | ExprAST::Unary(..) => false,
+            _ => true,
+        }
+    }
+
     fn unary_expr(&self, op: &'a str, rhs: &ExprAST) -> String {
-        op.to_string() + " " + &rhs.expr()
+        // a prefix operator applies to one primary (with its postfix operator, if any)
+        match rhs {
+            ExprAST::Binary(..) | ExprAST::Ternary(..) => op.to_string() + " " + &rhs.paren_expr(),
+            _ => op.to_string() + " " + &rhs.expr(),
+        }
     }
 
     fn binary_expr(&self, op: &'a str, lhs: &ExprAST, rhs: &ExprAST) -> String {
-        let left = {
-            let (is, precidence) = lhs.get_precidence();
-            let mut tmp: String = lhs.expr();
-            if is && precidence < InfixOpManager::new().get_precidence(op) {
-                tmp = "(".to_string() + &lhs.expr() + &")".to_string();
-            }
-            tmp
+        let (l_bp, r_bp) = InfixOpManager::new().get_precidence(op);
+        let left = match lhs {
+            // `a OP1 b OP x` keeps `a OP1 b` together only if OP1 holds b tighter than OP
+            ExprAST::Binary(..) if lhs.get_precidence().1 .1 < l_bp => lhs.paren_expr(),
+            ExprAST::Ternary(..) => lhs.paren_expr(),
+            _ => lhs.expr(),
         };
-        let right = {
-            let (is, precidence) = rhs.get_precidence();
-            let mut tmp = rhs.expr();
-            if is && precidence < InfixOpManager::new().get_precidence(op) {
-                tmp = "(".to_string() + &rhs.expr() + &")".to_string();
-            }
-            tmp
+        let right = match rhs {
+            // `x OP a OP2 b` gives `a OP2 b` to OP only if OP2 binds tighter than OP's right side
+            ExprAST::Binary(..) if r_bp > rhs.get_precidence().1 .0 => rhs.paren_expr(),
+            ExprAST::Ternary(..) => rhs.paren_expr(),
+            _ => rhs.expr(),
         };
         left + " " + op + " " + &right
     }
 
     fn postfix_expr(&self, lhs: &ExprAST, op: &str) -> String {
-        lhs.expr() + " " + op
+        // a postfix operator applies to one atom
+        if lhs.is_atom() {
+            return lhs.expr() + " " + op;
+        }
+        lhs.paren_expr() + " " + op
     }
 
     fn ternary_expr(&self, condition: &ExprAST, lhs: &ExprAST, rhs: &ExprAST) -> String {
-        condition.expr() + " ? " + &lhs.expr() + " : " + &rhs.expr()
+        // branches extend as far as possible, only a conditional condition needs grouping
+        let cond = match condition {
+            ExprAST::Ternary(..) => condition.paren_expr(),
+            _ => condition.expr(),
+        };
+        cond + " ? " + &lhs.expr() + " : " + &rhs.expr()
     }
 
     fn list_expr(&self, params: Vec<ExprAST>) -> String {
